@@ -292,8 +292,9 @@ class LibevConnection(Connection):
 
         # don't leave in-progress operations hanging
         if not self.is_defunct:
-            self.error_all_requests(
-                ConnectionShutdown("Connection to %s was closed" % self.endpoint))
+            exc = ConnectionShutdown("Connection to %s was closed" % self.endpoint)
+            self.error_all_cp_sessions(exc)
+            self.error_all_requests(exc)
 
     def handle_write(self, watcher, revents, errno=None):
         if revents & libev.EV_ERROR:
